@@ -40,6 +40,9 @@ func (g *pgen) corpus(focus string, start int) []*ConvSpec {
 	if focus == "c18" {
 		return g.corpusC18(start)
 	}
+	if focus == "c06" {
+		return g.corpusC06(start)
+	}
 	if focus != "c11" {
 		return nil
 	}
@@ -222,6 +225,24 @@ func (g *pgen) corpusC03(start int) []*ConvSpec {
 func (g *pgen) corpusC10(start int) []*ConvSpec {
 	var out []*ConvSpec
 	str, i := tBasic(bkString), tBasic(bkInt)
+	// a target field fed by an argument-less METHOD of the source struct (bool result: the function oracle yields false for
+	// about half of the receivers): the zero guard applies to it like to a plain field
+	for _, line := range []string{"update:ignoreZeroValueField", "update:ignoreZeroValueField:basic"} {
+		for _, srcPtr := range []bool{false, true} {
+			sn := g.newNamed(1, &Ty{K: "struct", Pkg: 1, Fields: []Field{{"X", i}, {"Y", str}}}, "S")
+			f := &FuncDecl{Idx: len(g.p.Funcs), Pkg: 1, Tgt: tBasic(bkBool), Recv: tNamed(sn)}
+			f.Name = fmt.Sprintf("Flag%d", f.Idx)
+			g.p.Funcs = append(g.p.Funcs, f)
+			t := g.newNamed(1, &Ty{K: "struct", Pkg: 1, Fields: []Field{{f.Name, tBasic(bkBool)}, {"X", i}, {"Y", str}}}, "T")
+			c := &ConvSpec{Name: fmt.Sprintf("C%d", start+len(out)), Custom: true, FuncNames: map[string]int{}}
+			src := tNamed(sn)
+			if srcPtr {
+				src = tPtr(src)
+			}
+			c.Methods = []*MethodSpec{{Name: "M0", Src: src, Tgt: tPtr(tNamed(t)), Update: true, Lines: []string{"update target", line}, Fields: map[string]*fieldSet{}}}
+			out = append(out, c)
+		}
+	}
 	// source and target of the update method are the SAME struct type, with skipCopySameType: the fields are still written
 	// through the target pointer one by one (the struct rule is applied directly, not the SkipCopy rule)
 	for _, srcPtr := range []bool{true, false} {
@@ -296,6 +317,18 @@ func (g *pgen) corpusC08(start int) []*ConvSpec {
 		c := &ConvSpec{Name: fmt.Sprintf("C%d", start+len(out)), Custom: true, Lines: []string{"enum:unknown @panic"}}
 		c.Methods = []*MethodSpec{{Name: "M0", Src: tNamed(s), Tgt: tNamed(t), Lines: []string{"enum:transform regex " + fmt.Sprintf(form, sd.Name, td.Name)}, Fields: map[string]*fieldSet{}}}
 		_ = k
+		out = append(out, c)
+	}
+	// d. enum:unknown written on one method differs from the converter's: the sibling method and the enum below a struct
+	// field (generated sub-method) still follow the converter-level policy
+	for _, pol := range [][2]string{{"@error", "@ignore"}, {"@ignore", "@error"}, {"@panic", "@ignore"}} {
+		s, t, _, _ := mkPair("NY")
+		s2, t2, _, _ := mkPair("NZ")
+		c := &ConvSpec{Name: fmt.Sprintf("C%d", start+len(out)), Custom: true, Lines: []string{"enum:unknown " + pol[0]}}
+		c.Methods = []*MethodSpec{
+			{Name: "M0", Src: s, Tgt: t, Err: true, Lines: []string{"enum:unknown " + pol[1]}, Fields: map[string]*fieldSet{}},
+			{Name: "M1", Src: s2, Tgt: t2, Err: true, Fields: map[string]*fieldSet{}}, // another pair, no line of its own: converter-level policy
+		}
 		out = append(out, c)
 	}
 	for _, unknown := range []string{"@panic", "@error", "@ignore"} {
@@ -521,6 +554,30 @@ func (g *pgen) corpusC07keys(start int) []*ConvSpec {
 			{Name: "M0", Src: ms, Tgt: mt, Err: true, Fields: map[string]*fieldSet{}},
 			{Name: "M1", Src: tNamed(s), Tgt: tNamed(t), Err: true, Fields: map[string]*fieldSet{}},
 		}
+		out = append(out, c)
+	}
+	return out
+}
+
+// corpusC06: goverter:map F T | FUNC hands FUNC exactly the configured source field, also when that field has the type of
+// a pointer to the enclosing struct (self-referential structs) inside a pointer-source method; only "map . T | FUNC" hands
+// the enclosing pointer on (that form is outside the model).
+func (g *pgen) corpusC06(start int) []*ConvSpec {
+	var out []*ConvSpec
+	str := tBasic(bkString)
+	for _, srcPtr := range []bool{true, false} {
+		node := g.newNamed(1, nil, "S")
+		g.p.Named[node].Under = &Ty{K: "struct", Pkg: 1, Fields: []Field{{"Name", str}, {"Parent", tPtr(tNamed(node))}}}
+		dto := g.newNamed(1, &Ty{K: "struct", Pkg: 1, Fields: []Field{{"Name", str}, {"ParentName", str}}}, "T")
+		f := &FuncDecl{Idx: len(g.p.Funcs), Pkg: 1, Tgt: str, Params: []FnParam{{Name: "src", T: tPtr(tNamed(node)), Role: 0}}}
+		f.Name = fmt.Sprintf("MapF%d", f.Idx)
+		g.p.Funcs = append(g.p.Funcs, f)
+		c := &ConvSpec{Name: fmt.Sprintf("C%d", start+len(out)), Custom: true, FuncNames: map[string]int{f.Name: f.Idx}}
+		src, tgt := tNamed(node), tNamed(dto)
+		if srcPtr {
+			src, tgt = tPtr(src), tPtr(tgt)
+		}
+		c.Methods = []*MethodSpec{{Name: "M0", Src: src, Tgt: tgt, Lines: []string{"map Parent ParentName | " + f.Name}, Fields: map[string]*fieldSet{"ParentName": {Source: "Parent"}}}}
 		out = append(out, c)
 	}
 	return out
